@@ -19,6 +19,7 @@ mod c11;
 mod c13;
 mod c15;
 mod c12;
+mod c17;
 
 use engine::Ctx;
 
@@ -107,6 +108,8 @@ fn main() {
         ("C15", Some(p)) => c15::replay(&ctx, p),
         ("C12", None) => c12::run(&ctx),
         ("C12", Some(p)) => c12::replay(&ctx, p),
+        ("C17", None) => c17::run(&ctx),
+        ("C17", Some(p)) => c17::replay(&ctx, p),
         ("C16", None) => c16::run(&ctx),
         ("C16", Some(p)) => c16::replay(&ctx, p),
         _ => {
